@@ -345,6 +345,19 @@ pub fn run_c06(cfg: &Cfg) {
         pats.push(format!("\\k<{}>", "9".repeat(n)));
         pats.push(format!("a{{{}}}", "9".repeat(n)));
     }
+    // numeric-boundary probes: every escape / count that is converted to a number, with digit runs of every
+    // length around the widths the code accepts (off-by-one in a digit-count guard => unwrap on a parse error)
+    for n in 0..=20usize {
+        for d in ["1", "9", "f", "F", "0"] {
+            let run = d.repeat(n);
+            for tmpl in ["\\x{{{}}}", "\\u{{{}}}", "\\U{{{}}}", "\\x{}", "\\u{}", "\\U{}", "[\\x{{{}}}]", "a[\\x{{{}}}]b", "[\\u{}]",
+                         "a{{{}}}", "a{{{},}}", "a{{1,{}}}", "a{{{},{}}}", "(a)\\{}", "(a)\\k<{}>", "(a)\\k<-{}>", "(a)\\g<{}>",
+                         "(a)(?({})b|c)", "(?<n{}>a)", "\\k<n{}>", "(a)(?P={})", "\\{}"] {
+                pats.push(tmpl.replace("\\\\", "\\").replace("{{", "\u{1}").replace("}}", "\u{2}").replace("{}", &run)
+                    .replace('\u{1}', "{").replace('\u{2}', "}"));
+            }
+        }
+    }
     // native-stack probes: nesting far beyond what any recursion without a depth check survives
     for open in ["(", "(?:", "(?=", "(?<=", "(?>", "(?i:", "(?<n>", "(?(a)", "(?x:", "(?-i:", "[", "(?((", "a|("] {
         pats.push(open.repeat(200_000));
@@ -557,6 +570,17 @@ pub fn run_c14(cfg: &Cfg) {
             s.count("backtrack_limit_cases");
             if !limited || !free {
                 s.violation("C14", "backtrack-limit", &[("pattern", p.to_string()), ("text", t.to_string()), ("detail", format!("limit0 error={} default ok={}", limited, free))]);
+            }
+            // a limit far above what the search needs must give the default-limit answer, whatever its width
+            let want = Regex::new(p).unwrap().find(t).map(|m| m.map(|m| (m.start(), m.end()))).map_err(|_| ());
+            for big in [1usize << 31, (1usize << 32) - 1, 1usize << 32, (1usize << 32) + 1, 1usize << 40, 1usize << 63, usize::MAX] {
+                let mut b = RegexBuilder::new(p);
+                b.backtrack_limit(big);
+                let got = b.build().unwrap().find(t).map(|m| m.map(|m| (m.start(), m.end()))).map_err(|_| ());
+                s.count("backtrack_limit_cases");
+                if got != want {
+                    s.violation("C14", "backtrack-limit", &[("pattern", p.to_string()), ("text", t.to_string()), ("detail", format!("limit {} gives {:?}, default limit gives {:?}", big, got, want))]);
+                }
             }
         }
     }
